@@ -120,12 +120,43 @@ def run_instance(inst, U, lattice):
     labels = [tuple(x) for x in inst["labels"]]
     nodes = [Node(float(a) if not lattice else _num(a), _num(w), {"id": i + 1}) for i, (a, w) in enumerate(labels)]
     f = Force(dict(inst["opts"]))
-    f.nodes(nodes)
+    f.nodes(list(nodes))       # (the engine may sort the list it is given in place; keep ours in label order)
     try:
         f.compute()
     except RecursionError:
         return {"error": "RecursionError", "n": len(labels)}
     return project(f, nodes, labels, inst["opts"], U, lattice)
+
+
+def run_relayout(rng):
+    """The same engine laid out twice: compute, change options, compute again (and sometimes hand the same label objects
+    to a second engine).  The observation is projected after the LAST compute and must satisfy every single-layout
+    property for the final options (C01-C04 quantify over configurations, not over how the engine got there)."""
+    inst = gen_random(rng, "random")
+    labels = [tuple(x) for x in inst["labels"]]
+    nodes = [Node(_num(a), _num(w), {"id": i + 1}) for i, (a, w) in enumerate(labels)]
+    first = dict(inst["opts"])
+    base = first["minPos"] if first["minPos"] is not None else 0
+    first["maxPos"] = base + rng.choice([10, 50, 100.5])     # narrow: forces several layers
+    f = Force(first)
+    f.nodes(list(nodes))
+    try:
+        f.compute()
+        delta = {"maxPos": inst["opts"]["maxPos"], "stubWidth": rng.choice([0, 1, 2.5]), "nodeSpacing": rng.choice([0, 1, 3])}
+        if rng.random() < 0.3:
+            delta["algorithm"] = rng.choice(["overlap", "simple", "none"])
+        if rng.random() < 0.5:
+            f.set_options(delta)
+            f.compute()
+        else:
+            opts2 = dict(first)
+            opts2.update(delta)
+            f = Force(opts2)
+            f.nodes(list(nodes) if rng.random() < 0.5 else list(reversed(nodes)))
+            f.compute()
+    except RecursionError:
+        return {"error": "RecursionError", "n": len(labels)}
+    return project(f, nodes, labels, None, 4, True)
 
 
 def _num(v):
@@ -248,6 +279,8 @@ def main():
         while len(recs) < job["count"]:
             if mode == "float":
                 r = run_instance(gen_float(rng), 1000, False)
+            elif mode == "relayout":
+                r = run_relayout(rng)
             elif mode == "bounds":
                 r = run_instance(gen_bounds(rng), 4, True)
             else:
